@@ -309,7 +309,12 @@ func genKeys(r *rand.Rand, family string, n, maxLen int) []string {
 			ks = append(ks, k)
 		}
 	case "comb":
-		// b, ab, aab, ...: a binary caterpillar whose inner nodes all look alike
+		// b, ab, aab, ...: a binary caterpillar whose inner nodes all look alike.
+		// The trie is as high as it has keys; the spec's descent recurses per level,
+		// so keep it within what TLC evaluates quickly.
+		if n > 110 {
+			n = 110
+		}
 		a, b := byte('a'), byte('b')
 		if r.Intn(2) == 0 {
 			a, b = byte(r.Intn(256)), byte(r.Intn(256))
